@@ -1455,15 +1455,16 @@ class Emitter:
         if op == 'freeze':
             return [f"{r} = {s.val(ins.a, ins.ty)};"]
         if op == 'store' and s.opts.get('split_store') and isinstance(ins.p, Local) and isinstance(s.resolve(ins.ty), IntTy) and s.resolve(ins.ty).bits == 8:
-            # --split-store N: a byte store to  base[ variable index ]  becomes a case split over the index: 0 .. N-1 with a constant offset from
-            # base, any other index as the plain store.  (A store at a symbolic offset into an object that also holds pointers - std::string's
-            # 16-byte in-object buffer: _M_set_length - makes the model checker treat the whole object as bytes and lose those pointers.)
+            # --split-store N: a byte store to  base[ variable index ]  becomes a case split over the index (0 .. N-1, anything else is reported: trap),
+            # every alternative with a constant offset from base: a store at a symbolic offset into an object that also holds pointers (std::string's
+            # in-object buffer: _M_set_length) makes the model checker treat the whole object as bytes and lose those pointers - measured: a plain
+            # store as the default alternative is enough to bring the blow-up back (15 GB instead of 3 GB)
             d = s.defs.get(ins.p.name)
             if d is not None and d.op == 'gep' and len(d.idx) == 1 and not isinstance(d.idx[0][1], ConstInt) \
                     and isinstance(s.resolve(d.base), IntTy) and s.resolve(d.base).bits == 8:
                 n = s.opts['split_store']
                 return ([f"{{ u8 *__b = (u8*){s.val(d.p, d.pty)}; u64 __i = (u64){s.val(d.idx[0][1], d.idx[0][0])}; u8 __v = {s.val(ins.v, ins.ty)};", "  switch (__i) {"]
-                        + [f"    case {k}: __b[{k}] = __v; break;" for k in range(n)] + ["    default: __b[__i] = __v; }", "}"])
+                        + [f"    case {k}: __b[{k}] = __v; break;" for k in range(n)] + ["    default: __ll2c_oob_index(); }", "}"])
         if op in ('load', 'store') and getattr(s, 'inl', None):
             lv = s.lval_of(ins.p)
             if lv is not None and lv[0] is not None:
